@@ -40,11 +40,23 @@ RESPONSE_TYPES = ["code", "token", "id_token", "id_token token", "token id_token
 SCOPES = [None, "a", "openid", "a openid", "openid a", "zzz", ""]
 
 
-def build(scopes_supported, used_nonces, require_nonce, transport="neutral"):
+ISSUER_ID = "https://as.example/issuer?x=1"
+
+
+def build(scopes_supported, used_nonces, require_nonce, transport="neutral", issuer_param=False):
     store = S.Store()
     store.used_nonces = set(used_nonces)
     srv = S.Server(store, scopes_supported=scopes_supported, transport=transport)
     g = S.make_grants(store)
+    ext = []
+    if issuer_param:
+        # RFC 9207: the authorization response names the issuer (an extension on every authorization grant)
+        from authlib.oauth2.rfc9207 import IssuerParameter
+
+        class Iss(IssuerParameter):
+            def get_issuer(self):
+                return ISSUER_ID
+        ext = [Iss()]
 
     class OIDCCode(OpenIDCode):
         def exists_nonce(self, nonce, request):
@@ -75,10 +87,10 @@ def build(scopes_supported, used_nonces, require_nonce, transport="neutral"):
             store.codes[code] = S.Code(code, request.client.client_id, request.redirect_uri, request.scope, request.user.get_user_id(),
                                        nonce=request.data.get("nonce"))
 
-    srv.register_grant(g["code"], [OIDCCode(require_nonce=require_nonce)])
-    srv.register_grant(g["implicit"])
-    srv.register_grant(OImplicit)
-    srv.register_grant(OHybrid)
+    srv.register_grant(g["code"], [OIDCCode(require_nonce=require_nonce)] + ext)
+    srv.register_grant(g["implicit"], list(ext))
+    srv.register_grant(OImplicit, list(ext))
+    srv.register_grant(OHybrid, list(ext))
     for c in CLIENTS:
         store.clients[c["id"]] = S.Client(c["id"], "sec" if c["auth_method"] != "none" else "", c["redirect_uris"], c["scope"],
                                           ["authorization_code", "implicit"], c["response_types"], c["auth_method"])
@@ -112,11 +124,36 @@ def split_location(loc, registered_all):
     return target, qpairs[idx:], False
 
 
-def outcome(resp, registered_all):
+def strip_issuer(loc):
+    """(location without the RFC 9207 iss parameter, how many times it was there with the issuer's value, other iss values)"""
+    u = up.urlsplit(loc)
+    n, other = 0, 0
+    parts = []
+    for part in (u.query, u.fragment):
+        keep = []
+        for piece in part.split("&") if part else []:
+            k, _, v = piece.partition("=")
+            if up.unquote_plus(k) == "iss":
+                if up.unquote_plus(v) == ISSUER_ID:
+                    n += 1
+                else:
+                    other += 1
+                continue
+            keep.append(piece)
+        parts.append("&".join(keep))
+    return up.urlunsplit((u.scheme, u.netloc, u.path, parts[0], parts[1])), n, other
+
+
+def outcome(resp, registered_all, issuer_param=False):
     status, body, headers = resp
     h = dict(headers)
     if status == 302:
-        t, ps, frag = split_location(h["Location"], registered_all)
+        loc = h["Location"]
+        if issuer_param:
+            loc, n, other = strip_issuer(loc)
+            t, ps, frag = split_location(loc, registered_all)
+            return ["redirect", t, canon_params(ps), frag, ["iss", n, other]]
+        t, ps, frag = split_location(loc, registered_all)
         return ["redirect", t, canon_params(ps), frag]
     if status == 200 and isinstance(body, str) and "<form" in body:
         action = up.unquote(html.unescape(re.search(r'action="([^"]*)"', body).group(1)))
@@ -150,10 +187,12 @@ def run_one(ctx, cfg_key, scopes_supported, used, require_nonce, query, form, ap
 
 def _run_one(ctx, cfg_key, scopes_supported, used, require_nonce, query, form, approve, transport):
     m = ctx.model
-    store, srv = build(scopes_supported, used, require_nonce, transport)
+    # behind a framework, half of the cases have the RFC 9207 issuer extension on every grant (it works on framework responses)
+    issuer_param = transport != "neutral" and (len(json.dumps(query)) + len(json.dumps(form))) % 2 == 0
+    store, srv = build(scopes_supported, used, require_nonce, transport, issuer_param)
     uri = "https://as.example/authorize" + ("?" + url_encode(query) if query else "")
     req = S.HReq("POST" if form else "GET", uri, dict(form) if form else None, {})
-    ctx.count("transport:" + transport)
+    ctx.count("transport:" + transport + (":rfc9207" if issuer_param else ""))
     registered_all = [u for c in CLIENTS for u in c["redirect_uris"]]
     # two ways an integrator reaches the endpoint: directly, or -- as the documented consent page does -- by first asking for the
     # consent grant with the logged-in user on ONE request object that is then used for the decision as well
@@ -174,9 +213,12 @@ def _run_one(ctx, cfg_key, scopes_supported, used, require_nonce, query, form, a
                 resp = srv.handle_error_response(oreq, error)
         else:
             resp = srv.create_authorization_response(req, grant_user=S.User("alice") if approve else None)
-        got = outcome(resp, registered_all)
+        got = outcome(resp, registered_all, issuer_param)
     except Exception as e:  # noqa
         got = ["escapes", type(e).__name__, str(e)[:60]]
+    iss_seen = None
+    if issuer_param and got[0] == "redirect":
+        iss_seen, got = got[4], got[:4]
     data = dict(query)
     data.update(dict(form))
     mod = m.call("authorize_respond", {"config": {"clients": CLIENTS, "scopes_supported": scopes_supported or [],
@@ -184,7 +226,7 @@ def _run_one(ctx, cfg_key, scopes_supported, used, require_nonce, query, form, a
                                        "query": [[k.encode(), v.encode()] for k, v in query],
                                        "form": [[k.encode(), v.encode()] for k, v in form], "approve": approve})
     case = {"query": query, "form": form, "approve": approve, "scopes_supported": scopes_supported, "used_nonces": used, "require_nonce": require_nonce,
-            "via_consent_grant": via_consent, "transport": transport}
+            "via_consent_grant": via_consent, "transport": transport, "rfc9207": issuer_param}
     ctx.case(case, (json.dumps(query), json.dumps(form), approve, cfg_key, transport), "authorize:" + (":".join(map(str, got[:1] + ([got[2]] if got[0] == "local" else [])))))
     if got[0] != "escapes":
         ctx.compare("authorize_respond", case, got, mod)
@@ -192,6 +234,9 @@ def _run_one(ctx, cfg_key, scopes_supported, used, require_nonce, query, form, a
     if got[0] == "escapes":
         ctx.violation("C05:escapes:%s:%s" % (got[1], classify_escape(data, got)), "authorization endpoint raised an unhandled exception", dict(case, error=got))
         return
+    # (an error found while preparing the consent page is answered by the application's own call of handle_error_response: no grant hook runs there)
+    if iss_seen is not None and not via_consent and (iss_seen[1] != 1 or iss_seen[2]):
+        ctx.violation("C05:rfc9207:iss-not-once", "with the RFC 9207 extension registered, a redirect response does not carry the issuer's iss parameter exactly once", dict(case, iss=iss_seen))
     if got[0] in ("redirect", "form_post"):
         want = expected_target(data)
         if want is None or got[1] != want:
